@@ -12,6 +12,9 @@
 // Input: one command per line (hex floats)
 //   METH <id> isomap <N> <k> <d> <N*N doubles: distance table, row-major>
 //   METH <id> mds    <N> <k> <d> <N*N doubles>                      (k ignored)
+//   METN <id> isomap <N> <k> <d> <nm: 0 brute | 1 vptree | 2 covertree> <seed> <N*N doubles>
+//        the same Isomap body with the given neighbours method; srand(seed) before the call (the VP-tree draws
+//        its pivots from std::rand); used by the tied-data stream (integer lattice metrics, exact ties)
 //   METH <id> kpca   <N> <D> <d> <N*D doubles: features, sample-major>   (stock linear kernel callback)
 //   METH <id> pca    <N> <D> <d> <N*D doubles>                            (stock features callback)
 //     -> R <id> OK st 1 1 <0: returned | 1: threw> [| geo N N ..] | H n n ..   (geo: Isomap only; H = the matrix
@@ -143,12 +146,18 @@ struct table_callback
 typedef std::vector<IndexType>::const_iterator It;
 
 template <template <class, class, class, class> class Impl, class KCB, class DCB, class FCB>
-static void run_one(const std::vector<IndexType>& idx, KCB kcb, DCB dcb, FCB fcb, int k, int d)
+static void run_one(const std::vector<IndexType>& idx, KCB kcb, DCB dcb, FCB fcb, int k, int d, int nm = 0)
 {
     typedef tapkee_internal::ImplementationBase<It, KCB, DCB, FCB> Base;
     // the statements of tapkee::embed() (embed.hpp) and DynamicImplementation::embedUsing (methods.hpp)
     stichwort::ParametersSet parameters =
-        (num_neighbors = (IndexType)k, target_dimension = (IndexType)d, neighbors_method = Brute, eigen_method = Dense);
+        (num_neighbors = (IndexType)k, target_dimension = (IndexType)d, eigen_method = Dense);
+    if (nm == 1)
+        parameters.add(neighbors_method = VpTree);
+    else if (nm == 2)
+        parameters.add(neighbors_method = CoverTree);
+    else
+        parameters.add(neighbors_method = Brute);
     parameters.check();
     parameters.checkTypes(tapkee_internal::defaults);
     parameters.merge(tapkee_internal::defaults);
@@ -181,10 +190,14 @@ int main()
         if (!(ss >> cmd >> id))
             continue;
         g_current_id = id;
-        int N = 0, a = 0, d = 0;
+        int N = 0, a = 0, d = 0, nm = 0;
+        long seed = -1;
         std::vector<double> v;
         bool table = false;
-        bool ok = cmd == "METH" && bool(ss >> meth >> N >> a >> d) && N > 0 && N <= 2048 && a >= 0 && a <= 4096 && d > 0;
+        bool ok = (cmd == "METH" || cmd == "METN") && bool(ss >> meth >> N >> a >> d) && N > 0 && N <= 2048 && a >= 0 &&
+                  a <= 4096 && d > 0;
+        if (ok && cmd == "METN")
+            ok = meth == "isomap" && bool(ss >> nm >> seed) && nm >= 0 && nm <= 2;
         if (ok)
         {
             table = (meth == "isomap" || meth == "mds");
@@ -215,8 +228,10 @@ int main()
                 table_callback cb{&T};
                 typedef dummy_kernel_callback<IndexType> KCB;
                 typedef dummy_features_callback<IndexType> FCB;
+                if (seed >= 0)
+                    srand((unsigned)seed);
                 if (meth == "isomap")
-                    run_one<tapkee_internal::IsomapImplementation>(idx, KCB(), cb, FCB(), a, d);
+                    run_one<tapkee_internal::IsomapImplementation>(idx, KCB(), cb, FCB(), a, d, nm);
                 else
                     run_one<tapkee_internal::MultidimensionalScalingImplementation>(idx, KCB(), cb, FCB(), a, d);
             }
